@@ -13,6 +13,11 @@ res() { echo "$1" >> /tmp/confirm-$name.log; }
 if ! git apply "$src/patch.diff"; then res "APPLY FAILED"; git -C /repo worktree remove --force $WT; exit 3; fi
 go build . ./pkg/... ./internal/... || { res "BUILD FAILED"; git -C /repo worktree remove --force $WT; exit 3; }
 flock /tmp/seed/roottest.lock go test -vet=off -count=1 . ./pkg/... ./internal/... > /tmp/confirm-$name.suite 2>&1; suite=$?
+if [ $suite != 0 ]; then
+  # the pinned suite has a flaky test at the baseline commit (TestServerRecordErrorSetup/invalid_transport, ~5%): one retry
+  res "suite_first_run_failed: $(grep -m3 -- '--- FAIL' /tmp/confirm-$name.suite | tr '\n' ' ')"
+  flock /tmp/seed/roottest.lock go test -vet=off -count=1 . ./pkg/... ./internal/... > /tmp/confirm-$name.suite 2>&1; suite=$?
+fi
 res "suite_with_change_exit=$suite"
 cp "$src/$demo" "$dest/zz_seed_demo_test.go"
 flock /tmp/seed/roottest.lock go test -vet=off -count=1 $demoargs > /tmp/confirm-$name.with 2>&1; with=$?
